@@ -251,6 +251,88 @@ fn getter_checks(_a: &[f64]) {
     chk("d2p_dv2", s.d2p_dv2(c_t).to_reduced(), s.d2p_dv2(c_i).to_reduced(), s.d2p_dv2(c_r).to_reduced(), &mut sel_bad);
     chk("dp_dni[0]", s.dp_dni(c_t).to_reduced()[0], s.dp_dni(c_i).to_reduced()[0], s.dp_dni(c_r).to_reduced()[0], &mut sel_bad);
     chk("dmu_dni[1,1]", s.dmu_dni(c_t).to_reduced()[[1, 1]], s.dmu_dni(c_i).to_reduced()[[1, 1]], s.dmu_dni(c_r).to_reduced()[[1, 1]], &mut sel_bad);
+    // (b') selector and defining formulas of the getters of properties.rs (ideal-gas model needed): Joback + PR
+    let mut comp_bad = vec![];
+    {
+        use feos::ideal_gas::{Joback, JobackRecord};
+        use feos_core::EquationOfState;
+        let jrecs = vec![
+            PureRecord::new(Identifier::default(), 44.0, JobackRecord::new(-5.2, 0.35, -2.1e-4, 6.3e-8, -1.1e-11)),
+            PureRecord::new(Identifier::default(), 58.0, JobackRecord::new(12.0, 0.2, 1.0e-4, -2.0e-8, 3.0e-12)),
+        ];
+        let ig = Arc::new(Joback::from_records(jrecs, None).unwrap());
+        let eos = Arc::new(EquationOfState::new(ig, pr.clone()));
+        let s = State::new_nvt(&eos, Temperature::from_reduced(t0), Volume::from_reduced(v0), &Moles::from_reduced(arr1(&n0))).unwrap();
+        type S2 = State<EquationOfState<Joback, PengRobinson>>;
+        type H = Box<dyn Fn(&S2, Contributions) -> f64>;
+        let hs: Vec<(&str, H)> = vec![
+            ("helmholtz_energy", Box::new(|s, c| s.helmholtz_energy(c).to_reduced())),
+            ("entropy", Box::new(|s, c| s.entropy(c).to_reduced())),
+            ("chemical_potential[1]", Box::new(|s, c| s.chemical_potential(c).to_reduced()[1])),
+            ("dmu_dt[1]", Box::new(|s, c| s.dmu_dt(c).to_reduced()[1])),
+            ("ds_dt", Box::new(|s, c| s.ds_dt(c).to_reduced())),
+            ("d2s_dt2", Box::new(|s, c| s.d2s_dt2(c).to_reduced())),
+            ("molar_isochoric_heat_capacity", Box::new(|s, c| s.molar_isochoric_heat_capacity(c).to_reduced())),
+            ("dc_v_dt", Box::new(|s, c| s.dc_v_dt(c).to_reduced())),
+            ("molar_isobaric_heat_capacity", Box::new(|s, c| s.molar_isobaric_heat_capacity(c).to_reduced())),
+            ("molar_entropy", Box::new(|s, c| s.molar_entropy(c).to_reduced())),
+            ("enthalpy", Box::new(|s, c| s.enthalpy(c).to_reduced())),
+            ("molar_enthalpy", Box::new(|s, c| s.molar_enthalpy(c).to_reduced())),
+            ("molar_helmholtz_energy", Box::new(|s, c| s.molar_helmholtz_energy(c).to_reduced())),
+            ("internal_energy", Box::new(|s, c| s.internal_energy(c).to_reduced())),
+            ("molar_internal_energy", Box::new(|s, c| s.molar_internal_energy(c).to_reduced())),
+            ("gibbs_energy", Box::new(|s, c| s.gibbs_energy(c).to_reduced())),
+            ("molar_gibbs_energy", Box::new(|s, c| s.molar_gibbs_energy(c).to_reduced())),
+            ("compressibility", Box::new(|s, c| s.compressibility(c))),
+            ("dp_drho", Box::new(|s, c| s.dp_drho(c).to_reduced())),
+            ("specific_isochoric_heat_capacity", Box::new(|s, c| s.specific_isochoric_heat_capacity(c).to_reduced())),
+            ("specific_isobaric_heat_capacity", Box::new(|s, c| s.specific_isobaric_heat_capacity(c).to_reduced())),
+            ("specific_entropy", Box::new(|s, c| s.specific_entropy(c).to_reduced())),
+            ("specific_enthalpy", Box::new(|s, c| s.specific_enthalpy(c).to_reduced())),
+            ("specific_helmholtz_energy", Box::new(|s, c| s.specific_helmholtz_energy(c).to_reduced())),
+            ("specific_internal_energy", Box::new(|s, c| s.specific_internal_energy(c).to_reduced())),
+            ("specific_gibbs_energy", Box::new(|s, c| s.specific_gibbs_energy(c).to_reduced())),
+        ];
+        for (name, f) in &hs {
+            let (tot, ig_, res) = (f(&s, Contributions::Total), f(&s, Contributions::IdealGas), f(&s, Contributions::Residual));
+            if (tot - (ig_ + res)).abs() > 1e-10 * tot.abs().max(ig_.abs()).max(res.abs()).max(1e-300) {
+                sel_bad.push(json!({"getter": name, "total": tot, "ideal": ig_, "residual": res, "model": "Joback + PR"}));
+            }
+        }
+        // defining formulas of composite getters from the base getters, per selector
+        let (t, v, n) = (t0, v0, n0[0] + n0[1]);
+        let rg = RGAS.to_reduced();
+        for c in [Contributions::IdealGas, Contributions::Residual, Contributions::Total] {
+            let g = |name: &str| -> f64 { (hs.iter().find(|h| h.0 == name).unwrap().1)(&s, c) };
+            let (p, dpdv, dpdt) = (s.pressure(c).to_reduced(), s.dp_dv(c).to_reduced(), s.dp_dt(c).to_reduced());
+            let tt = Contributions::Total;
+            let cp_def = match c {
+                Contributions::Residual => t / n * (s.ds_res_dt().to_reduced() - s.dp_dt(tt).to_reduced().powi(2) / s.dp_dv(tt).to_reduced()) - rg,
+                _ => t / n * (g("ds_dt") - dpdt * dpdt / dpdv),
+            };
+            let defs: Vec<(&str, f64)> = vec![
+                ("molar_isochoric_heat_capacity", t * g("ds_dt") / n),
+                ("dc_v_dt", (t * g("d2s_dt2") + g("ds_dt")) / n),
+                ("molar_isobaric_heat_capacity", cp_def),
+                ("molar_entropy", g("entropy") / n),
+                ("enthalpy", t * g("entropy") + g("helmholtz_energy") + p * v),
+                ("molar_enthalpy", (t * g("entropy") + g("helmholtz_energy") + p * v) / n),
+                ("molar_helmholtz_energy", g("helmholtz_energy") / n),
+                ("internal_energy", t * g("entropy") + g("helmholtz_energy")),
+                ("molar_internal_energy", (t * g("entropy") + g("helmholtz_energy")) / n),
+                ("gibbs_energy", p * v + g("helmholtz_energy")),
+                ("molar_gibbs_energy", (p * v + g("helmholtz_energy")) / n),
+                ("compressibility", p / (n / v * t * rg)),
+                ("dp_drho", -v / (n / v) * dpdv),
+            ];
+            for (name, want) in defs {
+                let got = g(name);
+                if (got - want).abs() > 1e-10 * got.abs().max(want.abs()).max(1e-300) {
+                    comp_bad.push(json!({"getter": name, "contribution": match c { Contributions::IdealGas => "IdealGas", Contributions::Residual => "Residual", _ => "Total" }, "returned": got, "definition": want}));
+                }
+            }
+        }
+    }
     // (c) histories of length 2 (same state, and a clone taken after the first call)
     let mut hist_bad = vec![];
     for (hn, hf) in &getters {
@@ -268,7 +350,7 @@ fn getter_checks(_a: &[f64]) {
             }
         }
     }
-    println!("{}", json!({"fd_mismatches": fd_bad, "selector_mismatches": sel_bad, "history_mismatches": hist_bad, "getters": getters.len()}));
+    println!("{}", json!({"fd_mismatches": fd_bad, "selector_mismatches": sel_bad, "composite_mismatches": comp_bad, "history_mismatches": hist_bad, "getters": getters.len()}));
 }
 
 /// C03 (newton helper behind new_nph/new_nps/...): targets whose temperature iteration does not settle within the budget.
